@@ -10,7 +10,14 @@
 //!  * thumbprint == harness RFC 7638 reference over the required members only;
 //!  * verification-method constructors refuse every JWK with a private member, and whatever they
 //!    accept serialises without private members;
-//!  * `JwkGenOutput` and documents after `generate_method` contain no private member (deep scan).
+//!  * `JwkGenOutput` and documents after `generate_method` contain no private member (deep scan);
+//!  * the same JSON read through the containers that embed a JWK (JwkSet, JWS header `jwk`, verification
+//!    method / document `publicKeyJwk`, did:jwk, JwkGenOutput): whatever comes out is judged like any other JWK;
+//!  * declared-type / member-shape combinations swept over every registered curve name (JOSE registry + BLS draft)
+//!    and near-miss spellings, since the parameter family picked on deserialisation may depend on the value of `crv`;
+//!  * the typed conversion `Jwk::try_from(jsonprooftoken::jwk::key::Jwk)` (and the way back) over both source
+//!    parameter variants x every curve x every declared source `kty` x private part x optional members, directly,
+//!    after the source's own `to_public()`, and for sources read from JSON or generated.
 use futures::executor::block_on;
 use identity_core::common::{Object, Url};
 use identity_core::convert::{FromJson, ToJson};
@@ -18,11 +25,16 @@ use identity_did::{CoreDID, DIDJwk, DIDUrl, DID};
 use identity_document::document::CoreDocument;
 use identity_iota_core::{IotaDocument, NetworkName};
 use identity_jose::jwk::{
-  Jwk, JwkOperation, JwkParams, JwkParamsEc, JwkParamsOct, JwkParamsOkp, JwkParamsRsa, JwkParamsRsaPrime, JwkType, JwkUse,
+  Jwk, JwkOperation, JwkParams, JwkParamsEc, JwkParamsOct, JwkParamsOkp, JwkParamsRsa, JwkParamsRsaPrime, JwkSet, JwkType, JwkUse,
 };
-use identity_jose::jws::JwsAlgorithm;
+use identity_jose::jws::{JwsAlgorithm, JwsHeader};
 use identity_storage::{JwkDocumentExt, JwkGenOutput, JwkMemStore, JwkStorage, KeyIdMemstore, Storage};
 use identity_verification::{MethodBuilder, MethodData, MethodRelationship, MethodScope, MethodType, VerificationMethod};
+use jsonprooftoken::jpa::algs::ProofAlgorithm;
+use jsonprooftoken::jwk::alg_parameters::{Algorithm, JwkAlgorithmParameters, JwkEllipticCurveKeyParameters, JwkOctetKeyPairParameters};
+use jsonprooftoken::jwk::curves::EllipticCurveTypes;
+use jsonprooftoken::jwk::key::{Jwk as JwkExt, KeyOps, PKUse};
+use jsonprooftoken::jwk::types::{KeyPairSubtype, KeyType};
 use serde_json::{json, Value};
 use vh::b64::url_encode;
 use vh::keys::{sha256, Alg, Key};
@@ -46,6 +58,41 @@ const OPS: [(&str, JwkOperation); 10] = [
   ("proofGeneration", JwkOperation::ProofGeneration),
   ("proofVerification", JwkOperation::ProofVerification),
 ];
+
+/// Curve names of the JOSE "JSON Web Key Elliptic Curve" registry plus draft-ietf-cose-bls-key-representations.
+const CURVES: [&str; 12] =
+  ["P-256", "P-384", "P-521", "secp256k1", "Ed25519", "Ed448", "X25519", "X448", "BLS12381G1", "BLS12381G2", "BLS48581G1", "BLS48581G2"];
+/// Near-miss spellings of registered names (case, padding, neighbouring numbers).
+const CURVE_NEAR: [&str; 8] = ["bls12381g2", "BLS12381G2 ", " BLS12381G1", "BLS12-381G2", "BLS12381G3", "Bls48581G1", "p-256", "ED25519"];
+
+const EXT_CURVES: [EllipticCurveTypes; 12] = [
+  EllipticCurveTypes::P256,
+  EllipticCurveTypes::P384,
+  EllipticCurveTypes::P521,
+  EllipticCurveTypes::Secp256K1,
+  EllipticCurveTypes::Ed25519,
+  EllipticCurveTypes::Ed448,
+  EllipticCurveTypes::X25519,
+  EllipticCurveTypes::X448,
+  EllipticCurveTypes::BLS12381G1,
+  EllipticCurveTypes::BLS12381G2,
+  EllipticCurveTypes::BLS48581G1,
+  EllipticCurveTypes::BLS48581G2,
+];
+const EXT_KTYS: [(KeyType, &str); 4] = [(KeyType::EllipticCurve, "EC"), (KeyType::OctetKeyPair, "OKP"), (KeyType::RSA, "RSA"), (KeyType::Octet, "oct")];
+const EXT_OPS: [KeyOps; 10] = [
+  KeyOps::Sign,
+  KeyOps::Verify,
+  KeyOps::Encrypt,
+  KeyOps::Decrypt,
+  KeyOps::WrapKey,
+  KeyOps::UnwrapKey,
+  KeyOps::DeriveKey,
+  KeyOps::DeriveBits,
+  KeyOps::ProofGeneration,
+  KeyOps::ProofVerification,
+];
+const EXT_ALGS: [ProofAlgorithm; 4] = [ProofAlgorithm::BLS12381_SHA256, ProofAlgorithm::BLS12381_SHAKE256, ProofAlgorithm::SU_ES256, ProofAlgorithm::MAC_H256];
 
 // RFC 7638 section 3.1 example key (self-test of the harness reference).
 const RFC7638_N: &str = "0vx7agoebGcQSuuPiLJXZptN9nndrQmbXEps2aiAFbWhM78LhWx4cbbfAAtVT86zwu1RK7aPFFxuhDR1L6tSoc_BJECPebWKRXjBZCiFV4n3oknjhMstn64tZ_2W-5JsGY4Hc5n9yBXArwl93lqt7_RN5w6Cf0h4QyQ5v-65YGjQR0_FDW2QvzqY368QQMicAtaSqzs8KJZgnYb9c7d0zgdAZHzu6qMQvRL5hajrn1n91CbOpbISD08qNLyrdkt-bFTWhAI4vMQFh6WeZu0fM4lFd2NcRwr3XPksINHaQ-G_xBniIqbw0Ls1jF44-csFCur-kEgU8awapJzKnqDKgw";
@@ -549,11 +596,184 @@ fn deep_priv_keys(v: &Value, out: &mut Vec<String>, jwks: &mut u64) {
   }
 }
 
+const CONTAINERS: [&str; 6] = ["JwkSet", "JwsHeader", "VerificationMethod", "CoreDocument", "did:jwk", "JwkGenOutput"];
+
+fn container_class(c: &str) -> &'static str {
+  match c {
+    "JwkSet" => "deserialize-in:JwkSet",
+    "JwsHeader" => "deserialize-in:JwsHeader",
+    "VerificationMethod" => "deserialize-in:VerificationMethod",
+    "CoreDocument" => "deserialize-in:CoreDocument",
+    "did:jwk" => "deserialize-in:did-jwk",
+    _ => "deserialize-in:JwkGenOutput",
+  }
+}
+
+/// Reads the JWK JSON `text` embedded in container `c`; the JWKs the container hands out.
+fn read_container(c: &str, text: &str) -> Result<Vec<Jwk>, String> {
+  let method = format!(r#"{{"id":"did:example:c18#key-1","controller":"did:example:c18","type":"JsonWebKey2020","publicKeyJwk":{}}}"#, text);
+  match c {
+    "JwkSet" => {
+      let set: JwkSet = serde_json::from_str(&format!(r#"{{"keys":[{}]}}"#, text)).map_err(|e| e.to_string())?;
+      Ok(set.iter().cloned().collect())
+    }
+    "JwsHeader" => {
+      let h: JwsHeader = serde_json::from_str(&format!(r#"{{"alg":"EdDSA","kid":"did:example:c18#key-1","jwk":{}}}"#, text)).map_err(|e| e.to_string())?;
+      Ok(h.jwk().cloned().into_iter().collect())
+    }
+    "VerificationMethod" => {
+      let m = VerificationMethod::from_json(&method).map_err(|e| e.to_string())?;
+      Ok(m.data().public_key_jwk().cloned().into_iter().collect())
+    }
+    "CoreDocument" => {
+      let d = CoreDocument::from_json(&format!(r#"{{"id":"did:example:c18","verificationMethod":[{}]}}"#, method)).map_err(|e| e.to_string())?;
+      Ok(d.methods(None).iter().filter_map(|m| m.data().public_key_jwk().cloned()).collect())
+    }
+    "did:jwk" => {
+      let d = DIDJwk::parse(&format!("did:jwk:{}", url_encode(text.as_bytes()))).map_err(|e| e.to_string())?;
+      Ok(vec![d.jwk()])
+    }
+    _ => {
+      let o: JwkGenOutput = serde_json::from_str(&format!(r#"{{"key_id":"key-id-1","jwk":{}}}"#, text)).map_err(|e| e.to_string())?;
+      Ok(vec![o.jwk])
+    }
+  }
+}
+
+/// What the harness can read off a JWK value (declared type, parameters, its JSON) - used to tell whether a
+/// container handed out the same value as the plain route.
+type Fingerprint = (Fam, Fam, Vec<&'static str>, Vec<(&'static str, String)>, Option<Value>);
+
+fn fingerprint(j: &Jwk) -> Fingerprint {
+  let v = view(j.params());
+  (Fam::of(j.kty()), v.fam, v.privs, v.req, serde_json::to_value(j).ok())
+}
+
+#[derive(Clone, Copy, Debug, PartialEq, Eq)]
+enum ExtStep {
+  /// `Jwk::try_from(ext)`
+  Direct,
+  /// `Jwk::try_from(ext.to_public())` - the source crate's own projection first
+  ToPublicFirst,
+  /// the source written to JSON and read back (untagged: may land in the other parameter variant) first
+  JsonFirst,
+}
+const EXT_STEPS: [ExtStep; 3] = [ExtStep::Direct, ExtStep::ToPublicFirst, ExtStep::JsonFirst];
+
+impl ExtStep {
+  fn name(self) -> &'static str {
+    match self {
+      ExtStep::Direct => "try_from(ext)",
+      ExtStep::ToPublicFirst => "try_from(ext.to_public())",
+      ExtStep::JsonFirst => "try_from(ext<-json)",
+    }
+  }
+}
+
+#[derive(Clone, Debug, Default)]
+struct ExtOpt {
+  kid: Option<String>,
+  use_: Option<usize>,
+  key_ops: Option<Vec<usize>>,
+  alg: Option<usize>,
+  x5u: Option<String>,
+  x5c: Option<Vec<String>>,
+  x5t: Option<String>,
+}
+
+impl ExtOpt {
+  fn from_mask(mask: u32, rng: &mut Rng) -> ExtOpt {
+    let mut o = ExtOpt::default();
+    if mask & 1 != 0 {
+      o.kid = Some(rng.pick(&["key-1", "d", "", "did:example:c18#k"]).to_string());
+    }
+    if mask & 2 != 0 {
+      o.use_ = Some(rng.usize(3));
+    }
+    if mask & 4 != 0 {
+      let n = rng.usize(4);
+      o.key_ops = Some((0..n).map(|_| rng.usize(EXT_OPS.len())).collect());
+    }
+    if mask & 8 != 0 {
+      o.alg = Some(rng.usize(EXT_ALGS.len()));
+    }
+    if mask & 16 != 0 {
+      o.x5u = Some(rng.pick(&["https://example.com/cert.pem", "not a url"]).to_string());
+    }
+    if mask & 32 != 0 {
+      o.x5c = Some(vec!["MIIBszCCAVmgAwIBAgIU".to_string()]);
+    }
+    if mask & 64 != 0 {
+      o.x5t = Some(b64ish(rng, 27));
+    }
+    o
+  }
+  fn count(&self) -> u32 {
+    self.kid.is_some() as u32
+      + self.use_.is_some() as u32
+      + self.key_ops.is_some() as u32
+      + self.alg.is_some() as u32
+      + self.x5u.is_some() as u32
+      + self.x5c.is_some() as u32
+      + self.x5t.is_some() as u32
+  }
+}
+
+/// One source key of the typed conversion `Jwk::try_from(jsonprooftoken::jwk::key::Jwk)`.
+#[derive(Clone, Debug)]
+struct ExtCase {
+  /// EllipticCurve parameter variant (crv, x, y[, d]) or OctetKeyPair variant (crv, x[, d])
+  ec_shape: bool,
+  crv: usize,
+  /// index into EXT_KTYS: the `kty` field the source parameters declare (public, independent of the variant)
+  kty: usize,
+  x: String,
+  y: String,
+  d: Option<String>,
+  opt: ExtOpt,
+  step: ExtStep,
+}
+
+impl ExtCase {
+  fn build(&self) -> JwkExt {
+    let crv = EXT_CURVES[self.crv].clone();
+    let kty = EXT_KTYS[self.kty].0;
+    let params = if self.ec_shape {
+      JwkAlgorithmParameters::EllipticCurve(JwkEllipticCurveKeyParameters { kty, crv, x: self.x.clone(), y: self.y.clone(), d: self.d.clone() })
+    } else {
+      JwkAlgorithmParameters::OctetKeyPair(JwkOctetKeyPairParameters { kty, crv, x: self.x.clone(), d: self.d.clone() })
+    };
+    let mut e = JwkExt::from_key_params(params);
+    e.kid = self.opt.kid.clone();
+    e.pk_use = self.opt.use_.map(|i| [PKUse::Signature, PKUse::Encryption, PKUse::Proof][i]);
+    e.key_ops = self.opt.key_ops.as_ref().map(|v| v.iter().map(|i| EXT_OPS[*i]).collect());
+    e.alg = self.opt.alg.map(|i| Algorithm::Proof(EXT_ALGS[i]));
+    e.x5u = self.opt.x5u.clone();
+    e.x5c = self.opt.x5c.clone();
+    e.x5t = self.opt.x5t.clone();
+    e
+  }
+  fn class(&self) -> String {
+    format!(
+      "ext|{}|{}|kty{}|d{}|o{}|{}",
+      if self.ec_shape { "ecvariant" } else { "okpvariant" },
+      CURVES[self.crv],
+      EXT_KTYS[self.kty].1,
+      self.d.is_some() as u8,
+      self.opt.count().min(2),
+      self.step.name()
+    )
+  }
+}
+
 struct Cx {
   rep: Report,
   did: CoreDID,
   did_url: DIDUrl,
   n_obs: u64,
+  /// 1 = every odd-JSON case is also read through the containers; n = every n-th (reduced-scale runs)
+  container_every: u64,
+  n_odd: u64,
 }
 
 impl Cx {
@@ -884,7 +1104,11 @@ impl Cx {
         if self.rep.want_sample() && spec.priv_mask() != 0 && spec.opt.mask() != 0 && matches!(route, Route::Json) {
           self.rep.sample(json!({"route": route.name(), "input": text}));
         }
-        self.observe(&j, &info, Some(spec), 0)
+        let t = self.observe(&j, &info, Some(spec), 0);
+        if route == Route::Json && self.rep.get("route:from_json") % 8 == 0 {
+          self.containers("wellformed", &text, Some(&j));
+        }
+        t
       }
     }
   }
@@ -930,13 +1154,116 @@ impl Cx {
         Jwk::from_json(text).map_err(|e| e.to_string())
       }
     });
+    self.n_odd += 1;
+    let with_containers = self.n_odd % self.container_every == 0;
     match r {
       None => {}
-      Some(Err(_)) => self.rep.inc("odd_json_rejected"),
+      Some(Err(_)) => {
+        self.rep.inc("odd_json_rejected");
+        if with_containers {
+          self.containers(shape, text, None);
+        }
+      }
       Some(Ok(j)) => {
         self.rep.inc("odd_json_accepted");
         self.rep.distinct("nontrivial", &format!("odd|{}", shape));
         self.observe(&j, &info, None, 0);
+        if with_containers {
+          self.containers(shape, text, Some(&j));
+        }
+      }
+    }
+  }
+
+  /// The JSON text of one JWK read through every container type that embeds a JWK. `plain` = what the plain
+  /// route made of the same text (None = rejected). Only what a container hands out is judged; a value equal to
+  /// the plain route's has been judged there already.
+  fn containers(&mut self, shape: &str, text: &str, plain: Option<&Jwk>) {
+    let plain_fp: Option<Fingerprint> = plain.and_then(|j| catch(|| fingerprint(j)).ok());
+    for c in CONTAINERS {
+      let info = Info { origin: format!("{}[{}]", c, shape), class: container_class(c), input: text.to_string() };
+      self.rep.inc("container_reads");
+      let Some(r) = guard(&mut self.rep, "container-deserialize", &info, || read_container(c, text)) else { continue };
+      match r {
+        Err(e) => {
+          self.rep.inc(if plain.is_some() { "container_rejected_plain_accepted" } else { "container_rejected_plain_rejected" });
+          if plain.is_some() && self.rep.get("container_rejected_plain_accepted") <= 2 {
+            let n = self.rep.get("container_rejected_plain_accepted");
+            self.rep.note(&format!("container_rejected_plain_accepted_example_{}", n), json!({"container": c, "shape": shape, "input": text, "error": e}));
+          }
+        }
+        Ok(js) => {
+          for j in &js {
+            self.rep.inc("container_jwks");
+            let same = plain_fp.is_some() && guard(&mut self.rep, "kty/params", &info, || fingerprint(j)) == plain_fp;
+            if same {
+              self.rep.inc("container_same_as_plain");
+            } else {
+              let what = if plain.is_some() { "container_differs_from_plain" } else { "container_accepted_plain_rejected" };
+              self.rep.inc(what);
+              if self.rep.get(what) <= 2 {
+                self.rep.note(&format!("{}_example_{}", what, self.rep.get(what)), json!({"container": c, "shape": shape, "input": text}));
+              }
+              self.rep.distinct("nontrivial", &format!("container|{}|{}", c, shape));
+              self.observe(j, &info, None, 1);
+            }
+          }
+        }
+      }
+    }
+  }
+
+  /// One key obtained through the typed conversion from a `jsonprooftoken` JWK (not JSON, not setters), and the
+  /// same key after a trip `Jwk -> jsonprooftoken Jwk -> Jwk`. Only what the conversion hands out is judged.
+  fn ext_conversion(&mut self, ext: JwkExt, step: ExtStep, class: &str) {
+    self.rep.eval();
+    self.rep.inc("ext_cases");
+    self.rep.inc(&format!("ext_step:{}", step.name()));
+    let src = serde_json::to_string(&ext).unwrap_or_else(|_| format!("{:?}", ext));
+    let info = Info { origin: step.name().to_string(), class: "try_from_ext", input: format!("{} with ext = {}", step.name(), src) };
+    // the source crate's own steps (not under test; a failure there just ends the case)
+    let prepared: Option<JwkExt> = match step {
+      ExtStep::Direct => Some(ext),
+      ExtStep::ToPublicFirst => catch(|| ext.to_public()).ok().flatten(),
+      ExtStep::JsonFirst => serde_json::from_str::<JwkExt>(&src).ok(),
+    };
+    let Some(prepared) = prepared else {
+      self.rep.inc("ext_source_step_failed");
+      return;
+    };
+    let (variant_ec, declared) = match &prepared.key_params {
+      JwkAlgorithmParameters::EllipticCurve(p) => (true, p.kty),
+      JwkAlgorithmParameters::OctetKeyPair(p) => (false, p.kty),
+    };
+    let variant_kty = if variant_ec { KeyType::EllipticCurve } else { KeyType::OctetKeyPair };
+    self.rep.inc(if declared == variant_kty { "ext_source_kty_is_variant" } else { "ext_source_kty_differs_from_variant" });
+    let Some(r) = guard(&mut self.rep, "Jwk::try_from(ext)", &info, || Jwk::try_from(prepared).map_err(|e| e.to_string())) else { return };
+    match r {
+      Err(_) => self.rep.inc("ext_refused"),
+      Ok(j) => {
+        self.rep.inc("ext_converted");
+        if declared != variant_kty {
+          self.rep.inc("ext_converted_source_kty_differs_from_variant");
+        }
+        self.rep.distinct("nontrivial", class);
+        if self.rep.want_sample() && declared != variant_kty {
+          self.rep.sample(json!({"route": step.name(), "ext": src}));
+        }
+        self.observe(&j, &info, None, 0);
+        // ... and the way back and forth again
+        let back = guard(&mut self.rep, "Jwk->ext->Jwk", &info, || {
+          let e: JwkExt = TryInto::<JwkExt>::try_into(&j).map_err(|e| e.to_string())?;
+          Jwk::try_from(e).map_err(|e| e.to_string())
+        });
+        match back {
+          Some(Ok(j2)) => {
+            self.rep.inc("ext_back_and_forth");
+            let info2 = Info { origin: format!("{} -> try_into(ext) -> try_from(ext)", step.name()), class: "try_from_ext", input: info.input.clone() };
+            self.observe(&j2, &info2, None, 1);
+          }
+          Some(Err(_)) => self.rep.inc("ext_back_refused"),
+          None => {}
+        }
       }
     }
   }
@@ -1209,6 +1536,23 @@ fn odd_shapes(rng: &mut Rng) -> Vec<(String, Vec<(String, String)>)> {
       out.push((format!("wrongtype:{}:{}={}", k.name(), n, raw), m));
     }
   }
+  // declared kty x member shape x every registered curve name (and near-miss spellings): the family picked by
+  // the untagged parameter enum - and any special treatment - may depend on the value of `crv`
+  let (sx, sy, sd) = (b64ish(rng, 64), b64ish(rng, 64), b64ish(rng, 43));
+  for k in FAMS {
+    for crv in CURVES.iter().chain(CURVE_NEAR.iter()) {
+      for (label, with_y, with_d) in [("x", false, false), ("x+d", false, true), ("x+y", true, false), ("x+y+d", true, true)] {
+        let mut m = vec![("kty".to_string(), js(k.name())), ("crv".to_string(), js(crv)), ("x".to_string(), js(&sx))];
+        if with_y {
+          m.push(("y".to_string(), js(&sy)));
+        }
+        if with_d {
+          m.push(("d".to_string(), js(&sd)));
+        }
+        out.push((format!("crv:{}<-{}:{}", k.name(), label, crv.replace(' ', "_")), m));
+      }
+    }
+  }
   // kty itself odd
   for (label, kty) in [("none", None), ("unknown", Some("\"XYZ\"")), ("lowercase", Some("\"ec\"")), ("caps", Some("\"OCT\"")), ("number", Some("1")), ("null", Some("null"))] {
     for f in FAMS {
@@ -1252,14 +1596,19 @@ fn main() {
   let keep = |idx: u64| -> bool { scale >= 1000 || (idx * scale) / 1000 != ((idx + 1) * scale) / 1000 };
   let did = CoreDID::parse("did:example:c18").expect("did");
   let did_url = did.to_url().join("#key-b").expect("did url");
-  let mut cx = Cx { rep: Report::new("C18"), did, did_url, n_obs: 0 };
+  let mut cx = Cx { rep: Report::new("C18"), did, did_url, n_obs: 0, container_every: if scale >= 1000 { 1 } else { 4 }, n_odd: 0 };
   cx.rep.rule(
     "cases = JWKs over EC/RSA/oct/OKP built by the harness through from_params, new+set_params, new+set_kty+set_params, \
      from_json (members permuted, optional whitespace) and from_json_value, each also re-read from its own to_json; \
      JSON whose kty disagrees with / overlaps / under-specifies its members; random histories of set_kty/set_params/optional \
-     setters; JwkMemStore::generate outputs and Core/Iota documents after generate_method. non-trivial+distinct = JWK actually \
-     obtained, classed by (family, private-member subset, number of optional members, route, permuted?, plain values?) resp. \
-     odd-JSON shape resp. (declared family, params family, set_params outcome) resp. (document kind, methods)",
+     setters; JwkMemStore::generate outputs and Core/Iota documents after generate_method; the odd JSON (incl. a sweep of \
+     declared kty x EC/OKP member shape x every registered curve name and near-miss spellings) and a share of the well-formed \
+     JSON also read through JwkSet / JWS header / verification method / document / did:jwk / JwkGenOutput; keys converted from \
+     json-proof-token JWKs (parameter variant x curve x declared source kty x private part x optional members, directly, after \
+     the source's to_public, after a JSON trip of the source, generated) and converted back and forth. non-trivial+distinct = JWK \
+     actually obtained, classed by (family, private-member subset, number of optional members, route, permuted?, plain values?) \
+     resp. odd-JSON shape resp. (container, shape) resp. (declared family, params family, set_params outcome) resp. (document \
+     kind, methods) resp. (source variant, curve, source kty, private?, optional members, step)",
   );
   let mut rng = args.rng(18);
   let thorough = args.thorough;
@@ -1300,19 +1649,29 @@ fn main() {
   let shapes = odd_shapes(&mut Rng::new(0xC18, 0xDD));
   let perms = sc(if thorough { 48 } else { 6 });
   let mut k: u64 = 0;
-  for (shape, members) in &shapes {
+  for (si, (shape, members)) in shapes.iter().enumerate() {
+    // reduced-scale runs (Miri/ASan) keep every kind of shape but only a share of the curve-name sweep
+    if scale < 1000 && shape.starts_with("crv:") && si % 7 != 0 {
+      continue;
+    }
     for p in 0..perms {
-      for extra in [false, true] {
+      for extra in 0..3u32 {
         k += 1;
         if !args.mine(k) {
           continue;
         }
         let mut r = Rng::new(0xC18 ^ 0x0DD, k);
         let mut m = members.clone();
-        if extra {
+        if extra == 1 {
           m.push(("alg".into(), js("EdDSA")));
           m.push(("kid".into(), js("key-1")));
           m.push(("key_ops".into(), "[\"verify\"]".into()));
+        } else if extra == 2 {
+          // what a BBS+ key written by json-proof-token carries
+          m.push(("alg".into(), js("BBS-BLS12381-SHA256")));
+          m.push(("use".into(), js("proof")));
+          m.push(("kid".into(), js("key-1")));
+          m.push(("key_ops".into(), "[\"proofGeneration\",\"proofVerification\"]".into()));
         }
         if p > 0 {
           r.shuffle(&mut m);
@@ -1334,6 +1693,71 @@ fn main() {
   let n_gen = sc(if thorough { 16_000 } else { 1_600 }) / args.nshards.max(1);
   let n_docs = sc(if thorough { 8_000 } else { 800 }) / args.nshards.max(1);
   cx.keygen(&mut rng, n_gen.max(8), n_docs.max(2));
+
+  // ---- F. typed conversion from json-proof-token keys
+  // exhaustive: parameter variant x curve x declared source kty x private part x optional members x step
+  let mut idx: u64 = 0;
+  for ec_shape in [true, false] {
+    for crv in 0..EXT_CURVES.len() {
+      for kty in 0..EXT_KTYS.len() {
+        for with_d in [false, true] {
+          for omask in [0u32, 127, 1 | 8, 2 | 4] {
+            for step in EXT_STEPS {
+              idx += 1;
+              if !args.mine(idx) || !keep(idx / args.nshards.max(1)) {
+                continue;
+              }
+              let mut r = Rng::new(0xC18 ^ 0xE87, idx);
+              let case = ExtCase {
+                ec_shape,
+                crv,
+                kty,
+                x: b64ish(&mut r, 128),
+                y: b64ish(&mut r, 128),
+                d: if with_d { Some(b64ish(&mut r, 43)) } else { None },
+                opt: ExtOpt::from_mask(omask, &mut r),
+                step,
+              };
+              cx.ext_conversion(case.build(), step, &case.class());
+              cx.rep.inc("ext_exhaustive_cases");
+            }
+          }
+        }
+      }
+    }
+  }
+  // random: values of any length (also empty), any optional members
+  let n_ext = sc(if thorough { 1_600_000 } else { 16_000 }) / args.nshards.max(1);
+  for _ in 0..n_ext.max(1) {
+    let lens = [0usize, 4, 43, 64, 128];
+    let case = ExtCase {
+      ec_shape: rng.chance(3, 4),
+      crv: rng.usize(EXT_CURVES.len()),
+      kty: rng.usize(EXT_KTYS.len()),
+      x: { let l = *rng.pick(&lens); b64ish(&mut rng, l) },
+      y: { let l = *rng.pick(&lens); b64ish(&mut rng, l) },
+      d: if rng.bool() { let l = *rng.pick(&lens); Some(b64ish(&mut rng, l)) } else { None },
+      opt: { let m = rng.below(128) as u32; ExtOpt::from_mask(m, &mut rng) },
+      step: *rng.pick(&EXT_STEPS),
+    };
+    cx.ext_conversion(case.build(), case.step, &case.class());
+  }
+  // keys generated by the source crate (real BLS12-381 G2 keys; the key bytes come from the OS RNG and are not
+  // part of any oracle); skipped at reduced scale (pairing-curve arithmetic is too slow under Miri)
+  if scale >= 1000 {
+    let n_genext = if thorough { 4 } else { 1 };
+    for i in 0..n_genext {
+      let sub = if (i + args.shard) % 2 == 0 { KeyPairSubtype::BLS12381G2Sha256 } else { KeyPairSubtype::BLS12381G2Shake256 };
+      if let Ok(Ok(ext)) = catch(|| JwkExt::generate(sub)) {
+        cx.rep.inc("ext_generated");
+        for step in EXT_STEPS {
+          cx.ext_conversion(ext.clone(), step, &format!("ext|generated|{}", step.name()));
+        }
+      } else {
+        cx.rep.inc("ext_generate_failed");
+      }
+    }
+  }
 
   cx.rep.finish();
 }
